@@ -55,6 +55,8 @@ func runC06(c *Ctx) {
 	c.c06MissingSourceFirst()
 	c.c06RelativeContainment()
 	c.c06MoveBetweenKeepsItsSource()
+	c.c06NegativeDepthMeansUnlimited()
+	c.c06RefusalsBeforeChanges()
 	// Z16: hash — "the values returned … are those of the reference model": the digest of a file is the digest of its bytes,
 	// whatever they are. The file hasher streams the handle it opened into the hasher (the obligation C20/H4): reading the
 	// content through ReadFile first refuses empty files ('empty: no bytes were read').
@@ -1411,4 +1413,123 @@ func (c *Ctx) c06MoveBetweenKeepsItsSource() {
 	hit := pathPruned(f, nil, func(ssa.Instruction) bool { return false }, func(in ssa.Instruction) bool { return in == removal }, prune)
 	c.check(hit == nil, "Z15", fname(f)+"/source-kept", c.ipos(removal), "the source is removed only where the cleaned paths differ (or the filesystems do)",
 		"the removal of the source can be reached without the cleaned source and destination having been found different: for `dir/f` moved to `dir/./f` the copy has nothing to do (same object) and the removal deletes the only copy — the call returns nil and the file is gone")
+}
+
+// c06NegativeDepthMeansUnlimited (Z17): the limits say "negative maximum depth = the depth is not limited" (ILimits; DefaultLimits and
+// DefaultZipLimits use -1). Every comparison of a depth with GetMaxDepth() in package filesystem therefore lies where the
+// maximum was found non-negative — the unzip, tar and listing siblings must agree: a bare `depth >= GetMaxDepth()` is true for
+// every depth and, in the recursive listing, skips the root itself (an empty listing).
+func (c *Ctx) c06NegativeDepthMeansUnlimited() {
+	c.rule("Z17", "every comparison of a depth with limits.GetMaxDepth() lies where GetMaxDepth() was found to be at least 0 (a negative maximum depth means 'not limited')", 4)
+	for _, f := range c.srcFuncs(fsPkgRel) {
+		allInstrs(f, func(in ssa.Instruction) {
+			bo, ok := in.(*ssa.BinOp)
+			if !ok {
+				return
+			}
+			switch bo.Op {
+			case token.LSS, token.LEQ, token.GTR, token.GEQ:
+			default:
+				return
+			}
+			var other ssa.Value
+			if isLimitsGetter(bo.X, "GetMaxDepth") {
+				other = bo.Y
+			} else if isLimitsGetter(bo.Y, "GetMaxDepth") {
+				other = bo.X
+			} else {
+				return
+			}
+			if _, isConst := other.(*ssa.Const); isConst {
+				return // the guard itself
+			}
+			guarded := false
+			for _, b := range f.Blocks {
+				ifi, isIf := b.Instrs[len(b.Instrs)-1].(*ssa.If)
+				if !isIf {
+					continue
+				}
+				g, isB := ifi.Cond.(*ssa.BinOp)
+				if !isB {
+					continue
+				}
+				k, isC := constInt(g.Y)
+				if !isLimitsGetter(g.X, "GetMaxDepth") || !isC {
+					continue
+				}
+				nonNegative := (g.Op == token.GEQ && k >= 0) || (g.Op == token.GTR && k >= -1)
+				if nonNegative && (edgeDominates(b, 0, bo.Block()) || (b == bo.Block())) {
+					guarded = true
+				}
+				if nonNegative && b.Succs[0] == bo.Block() {
+					guarded = true
+				}
+			}
+			c.FuncsSeen[fname(outermost(f))] = true
+			c.check(guarded, "Z17", fname(outermost(f))+"/depth-compared-only-when-limited", c.ipos(bo), "the maximum depth was found non-negative before a depth is compared with it",
+				"a depth is compared with GetMaxDepth() without the maximum having been found non-negative: with the default limits (maximum depth -1, i.e. not limited) the comparison is true for every depth — the recursive listing skips its own root and returns nothing")
+		})
+	}
+}
+
+// c06RefusalsBeforeChanges (Z18): "a copy never changes its source, also when source and destination overlap". The copy worker
+// refuses some requests by itself (a directory copied into itself): such a refusal — a return of an error made on the spot —
+// is decided before anything is created. No path leads from a mutating call on the destination filesystem to one of the
+// function's own refusals.
+func (c *Ctx) c06RefusalsBeforeChanges() {
+	c.rule("Z18", "in the copy worker no refusal decided by the function itself (a return of an error made on the spot) can be reached after a mutating call: what is refused changes nothing", 1)
+	f := c.fn(fsPkgRel, "CopyBetweenFSWithExclusionRegexes")
+	if f == nil {
+		return
+	}
+	c.FuncsSeen[fname(f)] = true
+	mutating := map[string]bool{"MkDir": true, "MkDirAll": true, "CreateFile": true, "WriteFile": true, "Touch": true, "Rm": true, "Remove": true, "Move": true, "Chmod": true}
+	var muts []*ssa.Call
+	allInstrs(f, func(in ssa.Instruction) {
+		if cl, ok := in.(*ssa.Call); ok {
+			if nm, _, ok := fsMethodCall(cl); ok && mutating[nm] {
+				muts = append(muts, cl)
+			}
+		}
+	})
+	k := f.Signature.Results().Len() - 1
+	bad := ""
+	n := 0
+	allInstrs(f, func(in ssa.Instruction) {
+		r, ok := in.(*ssa.Return)
+		if !ok || k < 0 || len(r.Results) <= k {
+			return
+		}
+		own := false
+		for _, l := range sources(r.Results[k], deriveOpts{}) {
+			if isFreshError(l) {
+				own = true
+			}
+		}
+		if !own {
+			return
+		}
+		// a return that can also carry a propagated error is judged by the stores that made the fresh one: use the block of the
+		// fresh error's creation when the return is shared
+		var sites []ssa.Instruction
+		for _, l := range sources(r.Results[k], deriveOpts{}) {
+			if isFreshError(l) {
+				if li, ok := l.(ssa.Instruction); ok {
+					sites = append(sites, li)
+				}
+			}
+		}
+		for _, site := range sites {
+			n++
+			for _, m := range muts {
+				if m.Block() == site.Block() && instrIndex(m) < instrIndex(site) {
+					bad = c.ipos(site) + " after " + c.ipos(m)
+				} else if pathAvoiding(m, func(ssa.Instruction) bool { return false }, func(i ssa.Instruction) bool { return i == site }) != nil {
+					bad = c.ipos(site) + " after " + c.ipos(m)
+				}
+			}
+		}
+	})
+	c.check(n > 0 && bad == "", "Z18", fname(f)+"/refused-before-anything-is-created", c.pos(f.Pos()), "the function's own refusals cannot be reached after a mutating call",
+		"the refusal made at "+bad+" comes after the destination side was already changed: a copy of a directory into a missing directory of itself is refused with 'invalid' but leaves that directory behind, inside the source")
 }
